@@ -1080,6 +1080,10 @@ func (h *Hist) OpMeltQuote(m mode, msat uint64, own *hMintQ, mppPart uint64, uni
 			}
 			q.id, q.amount, q.fee = lq.Id, lq.Amount, lq.FeeReserve
 			h.lq[q.h] = q
+			// C16 monitor: a melt quote above the configured maximum was stored (whatever the invoice: foreign, own, partial)
+			if h.cfg.maxMelt > 0 && lq.Amount > h.cfg.maxMelt {
+				h.sink.Violate("melt-quote-above-max-amount"+h.sigSuffix, fmt.Sprintf("a melt quote of %d was accepted, the maximum is %d", lq.Amount, h.cfg.maxMelt), op.String(), LL(h.items).String())
+			}
 		}
 	})
 	if q.id != "" {
